@@ -169,6 +169,12 @@ func NegotiatePack(
 			return nil, ErrShallowNotSupported
 		}
 		upreq.Depth = packp.DepthRequest{Deepen: req.Depth}
+	}
+
+	// A shallow repository must always tell the server where its history is
+	// cut, not only when deepening: otherwise the server assumes that every
+	// ancestor of a "have" is present and omits objects behind the boundary.
+	if caps.Supports(capability.Shallow) {
 		upreq.Shallows, err = st.Shallow()
 		if err != nil {
 			return nil, err
